@@ -1365,8 +1365,31 @@ pub fn check_policing(
                     if !rr.accepted() || rr.excess != 0 {
                         problems.push(format!("response does not parse: {:?}", rr.causes));
                     } else {
-                        if Message::from_bytes(bytes).is_err() {
-                            problems.push("response refused by Message::from_bytes".to_string());
+                        match guard(|| {
+                            Message::from_bytes(bytes).map(|m| {
+                                // read back through the typed accessors: what they report is what the wire holds
+                                let ec = m.attribute::<stun_types::attribute::ErrorCode>().ok().map(|e| e.code());
+                                let ua = m.attribute::<stun_types::attribute::UnknownAttributes>().ok().map(|u| {
+                                    let raw = stun_types::attribute::AttributeWrite::to_raw(&u);
+                                    (raw.value.chunks_exact(2).map(|c| ((c[0] as u16) << 8) | c[1] as u16).collect::<Vec<u16>>(), format!("{u}").len())
+                                });
+                                (ec, ua, m.has_class(MessageClass::Error), m.method(), m.transaction_id())
+                            })
+                        }) {
+                            Ok(Ok((ec, ua, is_err, method, tid))) => {
+                                if ec != Some(*code) || !is_err || method != rp.method || imp::tid_to_bytes(tid) != rp.tid {
+                                    problems.push(format!("read back through the typed API: ERROR-CODE {ec:?}, error class {is_err}, method {method:#x}"));
+                                }
+                                let wire_list = rr.attrs.iter().find(|a| a.ty == 0x000A).and_then(|a| match ref_decode(Kind::UnknownAttributes, a.value(bytes), &rr.tid) {
+                                    Some(RefVal::TypeList(l)) => Some(l),
+                                    _ => None,
+                                });
+                                if ua.as_ref().map(|u| &u.0) != wire_list.as_ref() {
+                                    problems.push(format!("UNKNOWN-ATTRIBUTES read back through the typed API {:x?}, on the wire {wire_list:x?}", ua.map(|u| u.0)));
+                                }
+                            }
+                            Ok(Err(_)) => problems.push("response refused by Message::from_bytes".to_string()),
+                            Err(p) => problems.push(format!("panic while reading the response back: {} at {}", p.msg, p.loc)),
                         }
                         if rr.class != 3 {
                             problems.push(format!("class {} (want error)", rr.class));
